@@ -1,11 +1,14 @@
 from ..framework import Spec
 from ..ties_expr import lex_tie, eval_tie
-from ..ties_sys import isa_tie, macro_scenario_tie
+from ..ties_sys import isa_tie, macro_scenario_tie, scenario_tie
+from ..scenarios import gen_const_chain_scenario
 
 SPEC = Spec(
     pid='C07',
     coq_needs=['Base', 'Expr', 'ExprTie', 'ExprProofs', 'ExprParseProofs', 'Program', 'Match', 'ProgramIsa', 'Properties/C07'],
     ties=[lex_tie(), eval_tie(),
           # expressions the operand parsers put together themselves ([reg - offset] is 0 - offset) and expressions in operands
-          isa_tie({'kinds': ['indirect_register', 'indirect_register', 'numeric', 'indirect_numeric', 'register']}, n_quick=150, n_thorough=2500, name='isa_operand_exprs'), macro_scenario_tie(100, 2000)],
+          isa_tie({'kinds': ['indirect_register', 'indirect_register', 'numeric', 'indirect_numeric', 'register']}, n_quick=150, n_thorough=2500, name='isa_operand_exprs'), macro_scenario_tie(100, 2000),
+          # constants defined by quotients and used in later arithmetic
+          scenario_tie('const_chains', gen_const_chain_scenario, 80, 1000)],
 )
